@@ -56,6 +56,7 @@ type Config struct {
 	KeyOrder       KeyPolicy
 	KeepTrace      bool
 	Disk           *Disk
+	StallPermille  int // chance, at a scheduling point with timers pending, that the clock jumps to the next deadline although goroutines are runnable (a stalled machine)
 }
 
 // OutcomeKind classifies how a run ended.
@@ -101,6 +102,7 @@ type Outcome struct {
 	Blocked     []string
 	Probes      map[string]int
 	Unmanaged   int
+	VirtualNs   int64
 }
 
 type reqKind uint8
@@ -128,9 +130,12 @@ const (
 	kClose
 	kChanLen
 	kChanNil
+	kSleep
+	kNow
+	kSelect
 )
 
-var gateNames = [...]string{"draw", "log", "count", "probe", "go", "yield", "add", "wait", "lock", "unlock", "rlock", "runlock", "trylock", "exit", "panic", "note", "send", "send-done", "recv", "close", "chan-len", "nil-chan"}
+var gateNames = [...]string{"draw", "log", "count", "probe", "go", "yield", "add", "wait", "lock", "unlock", "rlock", "runlock", "trylock", "exit", "panic", "note", "send", "send-done", "recv", "close", "chan-len", "nil-chan", "sleep", "now", "select"}
 
 // GateName returns the readable name of a gate kind in a trace.
 func GateName(k uint8) string {
@@ -155,6 +160,9 @@ type req struct {
 	reply chan reply
 	msg   string
 	stack string
+	cases []SelCase
+	dur   int64
+	deflt bool
 }
 
 type gstate uint8
@@ -169,6 +177,8 @@ const (
 	gWaitTaken
 	gWaitRecv
 	gWaitForever
+	gSleeping
+	gWaitSelect
 )
 
 type gor struct {
@@ -179,6 +189,15 @@ type gor struct {
 	prio  int
 	begun bool
 	seq   int // unbuffered send: index of this goroutine's deposit
+	until int64     // gSleeping: virtual deadline (ns)
+	cases []SelCase // gWaitSelect
+}
+
+// SelCase is one communication clause of a select statement.
+type SelCase struct {
+	Ch   unsafe.Pointer
+	Cap  int
+	Send bool
 }
 
 type chanState struct {
@@ -226,6 +245,7 @@ type Sim struct {
 	mus      map[unsafe.Pointer]*muState
 	chans    map[unsafe.Pointer]*chanState
 	maxG     int
+	now      int64 // virtual time, ns
 }
 
 var cur atomic.Pointer[Sim]
@@ -426,8 +446,34 @@ func (s *Sim) parkedReceivers(p unsafe.Pointer) int {
 		if x.state == gWaitRecv && x.obj == p {
 			n++
 		}
+		if x.state == gWaitSelect {
+			for _, c := range x.cases {
+				if !c.Send && c.Ch == p {
+					n++
+					break
+				}
+			}
+		}
 	}
 	return n
+}
+
+// caseReady reports whether a select case could proceed now.
+func (s *Sim) caseReady(c SelCase) bool {
+	if c.Ch == nil {
+		return false
+	}
+	cs := s.chanOf(c.Ch, c.Cap)
+	if c.Send {
+		if cs.closed {
+			return true
+		}
+		if cs.cap > 0 {
+			return cs.n < cs.cap
+		}
+		return s.parkedReceivers(c.Ch) > cs.n
+	}
+	return cs.n > 0 || cs.closed
 }
 
 func (s *Sim) eligible(g *gor) bool {
@@ -447,6 +493,15 @@ func (s *Sim) eligible(g *gor) bool {
 		c := s.chanOf(g.obj, 0)
 		return c.n > 0 || c.closed
 	case gWaitForever:
+		return false
+	case gSleeping:
+		return s.now >= g.until
+	case gWaitSelect:
+		for _, c := range g.cases {
+			if s.caseReady(c) {
+				return true
+			}
+		}
 		return false
 	case gReady:
 		return true
@@ -473,14 +528,14 @@ func (s *Sim) remove(g *gor) {
 func (s *Sim) finish(kind OutcomeKind, r *req, pg int) {
 	out := Outcome{
 		Kind: kind, Steps: s.steps, Goroutines: s.maxG, Switches: s.switches,
-		Fingerprint: s.fp, Trace: s.trace, Log: s.log, Probes: s.probes,
+		Fingerprint: s.fp, Trace: s.trace, Log: s.log, Probes: s.probes, VirtualNs: s.now,
 	}
 	if r != nil {
 		out.PanicMsg, out.PanicStack, out.PanicG = r.msg, r.stack, pg
 	}
 	if kind == OutDeadlock || kind == OutStepCap {
 		for _, g := range s.gs {
-			what := [...]string{"ready", "WaitGroup.Wait", "Mutex.Lock", "RWMutex.RLock", "running", "chan send", "chan send (unbuffered, waiting for the receiver)", "chan receive", "nil channel"}[g.state]
+			what := [...]string{"ready", "WaitGroup.Wait", "Mutex.Lock", "RWMutex.RLock", "running", "chan send", "chan send (unbuffered, waiting for the receiver)", "chan receive", "nil channel", "time.Sleep / timer", "select"}[g.state]
 			out.Blocked = append(out.Blocked, fmt.Sprintf("g%d:%s", g.id, what))
 		}
 	}
@@ -494,6 +549,7 @@ func (s *Sim) loop() {
 		r := <-s.reqCh
 		g := s.running
 		soft := true
+		forceSwitch := false
 		switch r.kind {
 		case kDraw:
 			r.reply <- reply{v: s.ch.Draw(r.label, r.n)}
@@ -542,6 +598,9 @@ func (s *Sim) loop() {
 			g.state, g.wake = gReady, r.reply
 		case kYield:
 			g.state, g.wake = gReady, r.reply
+			if r.n == 1 {
+				forceSwitch = true
+			}
 		case kAdd:
 			w := s.wg(r.obj)
 			if r.n > 0 {
@@ -653,6 +712,31 @@ func (s *Sim) loop() {
 		case kChanNil:
 			g.state, g.wake = gWaitForever, r.reply
 			soft = false
+		case kSleep:
+			g.state, g.wake, g.until = gSleeping, r.reply, s.now+r.dur
+			if r.dur > 0 {
+				soft = false
+			}
+		case kNow:
+			r.reply <- reply{v: int(s.now)}
+			continue
+		case kSelect:
+			r.cases = copyCases(r.cases)
+			ready := false
+			for _, c := range r.cases {
+				if s.caseReady(c) {
+					ready = true
+				}
+			}
+			if !ready && r.deflt {
+				r.reply <- reply{v: -1}
+				continue
+			}
+			g.state, g.wake, g.cases = gWaitSelect, r.reply, r.cases
+			if !ready {
+				s.probes["select-parked"]++
+				soft = false
+			}
 		case kExit:
 			s.remove(g)
 			g = nil
@@ -673,6 +757,16 @@ func (s *Sim) loop() {
 			return
 		}
 		next := s.pick(g, soft)
+		if forceSwitch && next == g {
+			// a goroutine that yields the processor does not get it back while others can run (polling loops must make progress
+			// under every policy)
+			for _, x := range s.gs {
+				if x != g && s.eligible(x) {
+					next = x
+					break
+				}
+			}
+		}
 		if next == nil {
 			s.finish(OutDeadlock, nil, 0)
 			return
@@ -703,6 +797,33 @@ func (s *Sim) loop() {
 				c.taken++
 				rep.v = 1
 			}
+		case gWaitSelect:
+			// choose uniformly among the ready cases, as the language does, and commit the operation
+			var ready []int
+			for i, c := range next.cases {
+				if s.caseReady(c) {
+					ready = append(ready, i)
+				}
+			}
+			i := ready[s.ch.Draw("select-case", len(ready))]
+			c := next.cases[i]
+			cs := s.chanOf(c.Ch, c.Cap)
+			rep.v = i * 4
+			if c.Send {
+				if cs.closed {
+					rep.panic = "send on closed channel"
+				} else {
+					cs.n++
+					next.seq = cs.sent
+					cs.sent++
+				}
+			} else if cs.n > 0 {
+				cs.n--
+				cs.taken++
+				rep.v |= 1 // a value is there
+			}
+			next.cases = nil
+			next.obj = c.Ch
 		}
 		next.state, next.begun = gRunning, true
 		s.running = next
@@ -713,15 +834,46 @@ func (s *Sim) loop() {
 
 // pick chooses the goroutine that runs next. g is the goroutine that just passed
 // a gate (nil if it exited); soft means it could simply continue.
-func (s *Sim) pick(g *gor, soft bool) *gor {
-	var el []*gor
+// nextDeadline returns the earliest deadline of a sleeping goroutine (ok false if none sleeps).
+func (s *Sim) nextDeadline() (int64, bool) {
+	var best int64
+	ok := false
 	for _, x := range s.gs {
-		if s.eligible(x) {
-			el = append(el, x)
+		if x.state == gSleeping && (!ok || x.until < best) {
+			best, ok = x.until, true
 		}
 	}
-	if len(el) == 0 {
-		return nil
+	return best, ok
+}
+
+func (s *Sim) pick(g *gor, soft bool) *gor {
+	// a stalled machine: timers come due although goroutines could have run
+	if s.cfg.StallPermille > 0 {
+		if d, ok := s.nextDeadline(); ok && d > s.now && s.ch.Draw("stall", 1000) < s.cfg.StallPermille {
+			s.now = d
+			s.probes["clock-jump-while-runnable"]++
+		}
+	}
+	var el []*gor
+	for {
+		el = el[:0]
+		for _, x := range s.gs {
+			if s.eligible(x) {
+				el = append(el, x)
+			}
+		}
+		if len(el) > 0 {
+			break
+		}
+		// nothing can run: discrete-event time jumps to the next timer
+		d, ok := s.nextDeadline()
+		if !ok {
+			return nil
+		}
+		if d > s.now {
+			s.now = d
+		}
+		s.probes["clock-advanced-when-idle"]++
 	}
 	if s.cfg.Policy == PolPCT {
 		for _, at := range s.pctAt {
@@ -770,4 +922,24 @@ func (s *Sim) pick(g *gor, soft bool) *gor {
 		return rest[s.ch.Draw("pick", len(rest))]
 	}
 	return el[s.ch.Draw("pick", len(el))]
+}
+
+// copyCases moves the case list of a select out of the requesting goroutine's memory. The scheduler's reads of
+// memory written by a simulated goroutine are not ordered by any visible edge (the gates are hidden on purpose),
+// so this one copy is exempt from race instrumentation; everything else the scheduler receives is passed by value.
+//
+//go:norace
+func copyCases(src []SelCase) []SelCase {
+	out := make([]SelCase, len(src))
+	for i := range src {
+		out[i] = src[i]
+	}
+	return out
+}
+
+// Gosched replaces runtime.Gosched: the caller goes to the back of the queue; if anybody else can run, somebody else does.
+func Gosched() {
+	if s := cur.Load(); s != nil {
+		s.call(req{kind: kYield, n: 1})
+	}
 }
